@@ -1637,4 +1637,37 @@ example :
       = [(b!"a", S_mounted), (b!"c", S_error)] := by
   refine ⟨by decide, by decide, by decide, by decide⟩
 
+open Lc.Spec.World in
+/-- (specification level) a derived layer whose build root carries a mount that is not exactly
+    the configured overlay — another type, or a lower, upper or work directory that differs from
+    the configured one in any way, be it only by a suffix — is in the error state, whatever else
+    is mounted or missing -/
+theorem wrong_overlay_is_error (i : Inst) (ls : List DLayer) (users : List (Bytes × List Layers.User))
+    (l : DLayer) (s : St) (m : Kernel.KMnt)
+    (h1 : l.file.nmsgs = 0) (h2 : Fs.isDir i.fs (buildDir i l.name) = true)
+    (h3 : l.file.base.isEmpty = false)
+    (h4 : Fs.isDir i.fs (workDir i l.name) = true) (h5 : Fs.isDir i.fs (upperDir i l.name) = true)
+    (h6 : s.toNat ≥ 5) (h7 : topAt i.mnts (buildDir i l.name) = some m)
+    (h8 : (m.fstype == b!"overlay" && m.lower == buildDir i l.file.base
+            && m.upper == upperDir i l.name && m.work == workDir i l.name) = false) :
+    stateOf i ls users l (some s) = .error := by
+  unfold stateOf
+  simp only [h1, h2, h3, h4, h5, h7, h8]
+  simp [h6]
+
+open Lc.Spec.World in
+/-- … in particular a work directory that merely extends the configured one (`…/workdir_old`;
+    seeded change C08-agent7-1 compared with `HasPrefix`) -/
+theorem overlay_workdir_extended_is_error (i : Inst) (ls : List DLayer) (users : List (Bytes × List Layers.User))
+    (l : DLayer) (s : St) (m : Kernel.KMnt) (suffix : Bytes)
+    (h1 : l.file.nmsgs = 0) (h2 : Fs.isDir i.fs (buildDir i l.name) = true)
+    (h3 : l.file.base.isEmpty = false)
+    (h4 : Fs.isDir i.fs (workDir i l.name) = true) (h5 : Fs.isDir i.fs (upperDir i l.name) = true)
+    (h6 : s.toNat ≥ 5) (h7 : topAt i.mnts (buildDir i l.name) = some m)
+    (hw : m.work = workDir i l.name ++ suffix) (hs : suffix ≠ []) :
+    stateOf i ls users l (some s) = .error := by
+  apply wrong_overlay_is_error i ls users l s m h1 h2 h3 h4 h5 h6 h7
+  have : (m.work == workDir i l.name) = false := by
+    rw [hw]; simp [hs]
+  simp [this]
 end Lc.Props.C08
